@@ -10,7 +10,7 @@ import (
 	"verif/internal/core"
 )
 
-// Sentinels are fixed regression inputs under /verif/sentinels/C12/<name>/ with the layout of a
+// Sentinels are fixed regression inputs under /verif/sentinels/C12/testdata/<name>/ with the layout of a
 // replay bundle: overlay/*.go, original/*.go, expected/<same file names>.go, optional IMPORTPATH.
 // The expected files spell out the merged package the documentation promises; every run checks
 // them with the same machinery as the generated pairs.
@@ -33,7 +33,7 @@ func goFilesIn(dir string) ([]string, map[string]string) {
 }
 
 func runSentinels(c *core.Ctx) (ran int) {
-	root := filepath.Join(c.Verif, "sentinels", "C12")
+	root := filepath.Join(c.Verif, "sentinels", "C12", "testdata")
 	dirs, _ := os.ReadDir(root)
 	for _, d := range dirs {
 		dir := filepath.Join(root, d.Name())
@@ -54,8 +54,8 @@ func runSentinels(c *core.Ctx) (ran int) {
 		for _, side := range []int{sideOver, sideOrig} {
 			for _, n := range names[side] {
 				exp = append(exp, ExpFile{Name: n, Text: expTexts[n], ImportsChecked: true})
-				res.Files[[]string{"original/", "overlay/"}[side]+n] = texts[side][n]
-				res.Files["expected/"+n] = expTexts[n]
+				res.Files[[]string{"testdata/original/", "testdata/overlay/"}[side]+n] = texts[side][n]
+				res.Files["testdata/expected/"+n] = expTexts[n]
 			}
 		}
 		checkTexts(importPath, names, texts, exp, &res)
@@ -72,7 +72,7 @@ func runSentinels(c *core.Ctx) (ran int) {
 			}
 			seen[s.Class] = true
 			var what strings.Builder
-			fmt.Fprintf(&what, "sentinel %s (sentinels/C12/%s): ", d.Name(), d.Name())
+			fmt.Fprintf(&what, "sentinel %s (sentinels/C12/testdata/%s): ", d.Name(), d.Name())
 			for _, x := range res.Symptoms {
 				fmt.Fprintf(&what, "[%s] %s\n", x.Class, x.Detail)
 			}
